@@ -122,6 +122,22 @@ class SiteCx:
                     diff = _add(e_, s_, -1)
                     out.append(_add(ln, diff, -1))       # len - (e - s) <= 0
                     out.append(_add(diff, ln, -1))       # (e - s) - len <= 0
+        # `a.checked_sub(k)` is Some(d) only with d == a - k (hence a >= k); likewise checked_add on the Some side
+        for bi, t in b.calls(r"num::<impl (usize|u64|u32|u16|u8)>::checked_(sub|add)$"):
+            a_, k_ = self.lin.form(t["args"][0]), self.lin.form(t["args"][1])
+            if a_ is None or k_ is None:
+                continue
+            val = _add(a_, k_, -1 if t["callee"].endswith("checked_sub") else 1)
+            holders = [t["dest"]["local"]]
+            for tb, tt in b.calls(r"ops::Try::branch$"):
+                od = b.origin_def(tt["args"][0])
+                if od and od[0] == "def" and od[1]["kind"] == "call" and od[1]["block"] == bi:
+                    holders.append(tt["dest"]["local"])
+            for h in holders:
+                pay = {"pay:_%d.0" % h: 1, 1: 0}
+                out.append(_add(pay, val, -1))   # pay - val <= 0
+                out.append(_add(val, pay, -1))   # val - pay <= 0
+                out.append({"pay:_%d.0" % h: -1, 1: 0})  # unsigned
         self._ofacts = out
         return out
 
@@ -899,6 +915,25 @@ def root_never_removed(cx, vec_local):
     """Every shrinking operation on the vector is remove(idx) with idx >= 1 provable; created by collect() of a split."""
     b, lin = cx.b, cx.lin
     created = [d for d in b.defs().get(vec_local, []) if d["kind"] == "call"]
+    if len(created) == 1 and re.search(r"box_assume_init_into_vec_unsafe$|slice::<impl \[T\]>::into_vec$", created[0]["term"]["callee"]):
+        # stack form: `let mut v = vec![root]; .. v.push(x) .. if v.len() <= 1 { return Err } v.pop()`: created with >= 1
+        # element; every pop happens where len(v) >= 2 is a stable path fact; nothing else shrinks it
+        m = re.search(r"::<.*, (\d+)>$", created[0]["term"].get("resolved_full", ""))
+        if not m or int(m.group(1)) < 1:
+            return False
+        for d in b.defs().get(vec_local, []):
+            if d["kind"] != "mutcall":
+                continue
+            c = d["term"]["callee"]
+            if re.search(r"Vec::<T, A>::(push|reserve\w*|extend\w*|insert|append)$|Extend::extend$|DerefMut::deref_mut$", c):
+                continue
+            if re.search(r"Vec::<T, A>::pop$", c):
+                ln = {"len(%s)" % lin.root_key(d["term"]["args"][0]): 1, 1: 0}
+                if not entails(cx.stable_facts(d["block"]), lf_add(lf_const(2), ln, -1)):  # 2 - len <= 0
+                    return False
+                continue
+            return False
+        return True
     if len(created) != 1 or not re.search(r"Iterator::collect$", created[0]["term"]["callee"]) or not b.slice_op(created[0]["term"]["args"][0]).has_call(r"str>::split$"):
         return False
     for d in b.defs().get(vec_local, []):
@@ -940,7 +975,7 @@ def d_panic_call(cx, bi, t):
             pts = b.pointees().get(op_local(cnd["term"]["args"][0]), set())
             for vl in ([v] + sorted(pts)):
                 if vl is not None and root_never_removed(cx, vl):
-                    return ("root-never-removed", "the vector is the collect() of a split (>= 1 element) and every removal provably has index >= 1 (loop invariant i >= 1; `..` branch under i >= 2): it cannot be empty")
+                    return ("root-never-removed", "the vector starts with >= 1 element (collect() of a split / vec![root]) and every removal provably leaves element 0 (index >= 1; pop only where len >= 2): it cannot be empty")
     for a, s, cnd, truth in guard_conditions(b, bi):
         if cnd["kind"] != "binop" or cnd["op"] not in ("Eq", "Ne"):
             continue
